@@ -35,7 +35,7 @@ ASSUMPTIONS = [
     'parseable as a number',
 ]
 ANCHORS = ['Table.delimited_self', 'Table._extract_data_from_tsv', 'Table.from_tsv', '_convert', 'parse_biom_table']
-REQUIRED = ['ids_with_line_boundary_characters', 'text_category_round_trips', 'last_sample_named_like_a_metadata_column', 'scale_exports', 'ids_with_blanks_at_their_edges', 'non_finite_value_in_last_column', 'export_legacy_function', 'export_other_column_name',
+REQUIRED = ['import_from_tsv_with_mappings', 'ids_with_line_boundary_characters', 'text_category_round_trips', 'last_sample_named_like_a_metadata_column', 'scale_exports', 'ids_with_blanks_at_their_edges', 'non_finite_value_in_last_column', 'export_legacy_function', 'export_other_column_name',
             'import_legacy_convert_table_to_biom', 'export_asked_for_absent_metadata', 'exported_again_after_change', 'export_to_tsv', 'export_str', 'export_direct_io',
             'export_cli', 'import_from_tsv_lines', 'import_from_tsv_handle',
             'import_load_table', 'import_load_table_gz',
@@ -389,6 +389,24 @@ def run_case(ctx, index):
                  biom.parse.convert_table_to_biom(list(lines), None, None,
                                                   proc)))),
         ]
+        # with metadata handed over in mappings (which then is the
+        # metadata; ids and values are the text's)
+        smap = {i: {'from': 'sample mapping', 'n': k_}
+                for k_, i in enumerate(spec.samp_ids)}
+        omap = {i: {'from': 'observation mapping'} for i in spec.obs_ids}
+
+        def with_mappings():
+            t_ = biom.Table.from_tsv(list(lines), omap if index % 2 else None,
+                                     smap, proc)
+            got_s = [dict(e) for e in t_.metadata(axis='sample')]
+            if got_s != [smap[i] for i in spec.samp_ids]:
+                raise RuntimeError('sample metadata %r' % (got_s,))
+            if index % 2:
+                got_o = [dict(e) for e in t_.metadata(axis='observation')]
+                if got_o != [omap[i] for i in spec.obs_ids]:
+                    raise RuntimeError('observation metadata %r' % (got_o,))
+            return t_
+        importers.append(('from_tsv_with_mappings', 'mapped', with_mappings))
         if nonfinite:
             importers = [i for i in importers
                          if i[0] != 'legacy_convert_table_to_biom']
@@ -424,6 +442,9 @@ def run_case(ctx, index):
                 raise Violation('C03/roundtrip-differs/' + nm, '%s; text=%r;'
                                 ' case=%r' % ('; '.join(d), text[:400],
                                               desc))
+            if mdform == 'mapped':
+                ctx.count('import_' + nm)
+                continue
             if with_md_export:
                 if mdform == 'list':
                     expm = [{'taxonomy': list(e['taxonomy'])}
